@@ -1410,13 +1410,13 @@ pub fn check(tier: Tier) -> i32 {
         wall_s: wall,
         evaluations: executions,
         distinct_nontrivial: distinct,
-        rule: "One case = one execution of one generated program (1-4 output actions over 1-3 destinations, framed or plain mode, optional -quit, optional tests in front) on 2-4 scanner threads over 1-8 files under one seeded schedule (Random, Sticky or PCT strategy; scheduling points before every mutex acquire, before every chunk write, after every release and between files; displays split into up to 3 chunk writes in half of the runs). Non-trivial = the event trace switches between scanner threads at least once. distinct_nontrivial counts distinct (program text, lock/unlock/write/file event trace) pairs among them, i.e. distinct interleavings reached.",
+        rule: "One case = one execution of one generated program (1-14 output actions of every kind over relative/absolute/aliased destinations, framed or plain mode, optional -quit, 0-130 tests in front; probe workloads with -ls/-fls or \\c formats; one workload in 400 is a volume workload of 300-1200 files and 100-400 KiB) on 2-4 scanner threads over 1-8 files under one seeded schedule (Random, Sticky or PCT strategy; scheduling points at every lock/unlock, every port operation, every access to an assigned variable or hash table, and between files; displays split into up to 3 chunk writes; ports unbuffered or unsynchronised block-buffered with capacity 8-4096; large writes may stall). The final stream of every destination is compared, as a multiset of frames or lines, with sequential scans of the same program. Non-trivial = the event trace switches between scanner threads at least once. distinct_nontrivial counts distinct (program text, lock/unlock/write/file event trace) pairs among them, i.e. distinct interleavings reached.",
         samples: red.samples.clone(),
         extra,
         assumptions: vec![
             "A1 make-mutex gives a non-recursive mutex (relock by the owner is an error)".into(),
             "A2 with-mutex releases on normal and non-local exit".into(),
-            "A3 display appends to a port in one or more atomic chunk writes and takes no lock of its own".into(),
+            "A3 a port takes no lock of its own; it is either unbuffered (display = one or more atomic chunk writes) or block-buffered (display = read cursor / store / advance, flush = read cursor / hand over / reset, unsynchronised); a program must be correct under both".into(),
             "A4 (make-printer port mutex term) = (lambda (s) (with-mutex mutex (display s port) (when term (display term port))))".into(),
             "A5 lipe-scan evaluates the policy once per file on T threads, a file entirely on one thread; lipe-scan-break stops new files, running ones complete".into(),
             "A6 ports opened on one file name share one destination".into(),
